@@ -186,6 +186,26 @@ func init() {
 				}
 				emit("frame-sets", fmt.Sprintf("determ %s %s", defaultStart, strings.Join(hs, " ")))
 			}
+			// well-formed MSM frames of ONE constellation whose timestamps step back by a little or a lot
+			// (neighbouring epochs out of order, a restart): what a frame decodes and displays to, the time
+			// lines apart, must not depend on what the handler saw before it
+			for i := 0; i < c.N(40, 400); i++ {
+				seven := i%2 == 0
+				base := randSpec(r, seven, "8x8")
+				typ := base.typ
+				t0 := uint64(100000 + r.Intn(500000000))
+				var hs []string
+				for _, d := range []uint64{0, uint64([]int{1, 200, 1000, 1999, 2000, 5000, 60000}[r.Intn(7)]), uint64(r.Intn(3000))} {
+					s := randSpec(r, seven, "8x8")
+					s.typ = typ
+					s.ts = t0 - d
+					if typ == 1084 || typ == 1087 {
+						s.ts = (t0-d)%86400000 | uint64(r.Intn(7))<<27 // GLONASS: day and time of day
+					}
+					hs = append(hs, hx(mkFrame(s.encode())))
+				}
+				emit("timestamps-stepping-back", fmt.Sprintf("determ %s %s", defaultStart, strings.Join(hs, " ")))
+			}
 		},
 		Oracle: func(op string, ob *Obs) string {
 			if ob.Panic != "" {
